@@ -1,6 +1,9 @@
 package main
 
-import "math/big"
+import (
+	"fmt"
+	"math/big"
+)
 
 // Directed templates: small families of scripts aimed at interactions that the free generator
 // reaches only rarely (kept amounts spanning several senders, an account drawn several times with
@@ -754,6 +757,11 @@ func (g *Gen) originOtherAssetProgram(single bool) *GProgram {
 	if g.r.Chance(1, 4) {
 		delete(g.bal["a"], x)
 	}
+	debt := !single && g.r.Chance(1, 3)
+	if debt {
+		// the account already owes some of the OTHER asset: a bounded overdraft starts from that debt
+		g.bal["a"][y] = bi(-int64(5 + g.r.Intn(40)))
+	}
 	fn := "balance"
 	if g.r.Chance(1, 4) {
 		fn = "overdraft"
@@ -773,6 +781,9 @@ func (g *Gen) originOtherAssetProgram(single bool) *GProgram {
 	sent := &GSent{E: lit(y, bi(int64(1+g.r.Intn(40))))}
 	if g.r.Chance(1, 3) {
 		sent = &GSent{All: true, E: &GExpr{Kind: XAsset, S: y}}
+	}
+	if debt {
+		src = &GSource{Kind: SrcOverdraft, E: acct("a"), Bounded: lit(y, bi(int64(10+g.r.Intn(40))))}
 	}
 	// the asset already read is needed again by the statements (a save, or a send of its own), so
 	// that one request names a known and an unknown asset of the same account
@@ -1194,5 +1205,59 @@ func (g *Gen) edgeLiteralProgram() *GProgram {
 		g.prog.Stmts = append(g.prog.Stmts, &GStmt{Kind: StSend, Sent: &GSent{E: &GExpr{Kind: XVar, S: "big"}}, Src: srcAcct("world"),
 			Dst: &GDest{Kind: DstInorder, Clauses: []*GClause{{Cap: amount, To: &GKod{To: dstAcct("x")}}}, Remaining: &GKod{To: dstAcct("y")}}})
 	}
+	return g.prog
+}
+
+// metaCapRewrite: a cap (or an amount) comes from a meta() origin, and the script itself rewrites that
+// very metadata key: the value read is the store's, whatever the script writes, in this run and in
+// the next one against the same store.
+func (g *Gen) metaCapRewriteProgram() *GProgram {
+	asset := "USD"
+	g.asset = asset
+	g.smallBalances([]string{"a", "b"}, asset, 40)
+	capv := int64(5 + g.r.Intn(40))
+	if g.meta["a"] == nil {
+		g.meta["a"] = map[string]string{}
+	}
+	g.meta["a"]["limit"] = fmt.Sprintf("%s %d", asset, capv)
+	g.prog.Vars = append(g.prog.Vars, &GVarDecl{Type: "monetary", Name: "cap", Origin: &GFnCall{Name: "meta", Args: []*GExpr{acct("a"), {Kind: XString, S: "limit"}}}})
+	rewrite := &GStmt{Kind: StCall, Call: &GFnCall{Name: "set_account_meta", Args: []*GExpr{acct("a"), {Kind: XString, S: "limit"}, lit(asset, bi(int64(g.r.Intn(5))))}}}
+	n := bi(int64(10 + g.r.Intn(80)))
+	send := &GStmt{Kind: StSend, Sent: &GSent{E: lit(asset, n)}, Src: srcAcct("world"),
+		Dst: &GDest{Kind: DstInorder, Clauses: []*GClause{{Cap: &GExpr{Kind: XVar, S: "cap"}, To: &GKod{To: dstAcct("x")}}}, Remaining: &GKod{To: dstAcct("y")}}}
+	if g.r.Chance(1, 3) {
+		send = &GStmt{Kind: StSend, Sent: &GSent{E: lit(asset, n)}, Src: &GSource{Kind: SrcInorder, Subs: []*GSource{{Kind: SrcCapped, Cap: &GExpr{Kind: XVar, S: "cap"}, From: srcAcct("a")}, srcAcct("world")}}, Dst: dstAcct("x")}
+	}
+	if g.r.Chance(1, 2) {
+		g.prog.Stmts = append(g.prog.Stmts, rewrite, send)
+	} else {
+		g.prog.Stmts = append(g.prog.Stmts, send, rewrite)
+	}
+	return g.prog
+}
+
+// zeroTwins: two accounts whose balance is exactly zero (the store says so explicitly), one of them
+// is credited by a first statement, a second statement draws from both: a zero is not a shared number.
+func (g *Gen) zeroTwinsProgram() *GProgram {
+	asset := "USD"
+	g.asset = asset
+	g.bal["till"] = map[string]*big.Int{asset: bi(0)}
+	g.bal["float"] = map[string]*big.Int{asset: bi(0)}
+	g.bal["b"] = map[string]*big.Int{asset: bi(int64(g.r.Intn(2) * g.r.Intn(20)))}
+	n1 := int64(1 + g.r.Intn(40))
+	to := g.r.Pick([]string{"float", "till"})
+	g.prog.Stmts = append(g.prog.Stmts, &GStmt{Kind: StSend, Sent: &GSent{E: lit(asset, bi(n1))}, Src: srcAcct("world"), Dst: dstAcct(to)})
+	subs := []*GSource{srcAcct("till"), srcAcct("float")}
+	if g.r.Chance(1, 2) {
+		subs = append(subs, srcAcct("b"))
+	}
+	if g.r.Chance(1, 3) {
+		subs[0], subs[1] = subs[1], subs[0]
+	}
+	sent := &GSent{E: lit(asset, bi(int64(1+g.r.Intn(int(n1)+5))))}
+	if g.r.Chance(1, 4) {
+		sent = &GSent{All: true, E: &GExpr{Kind: XAsset, S: asset}}
+	}
+	g.prog.Stmts = append(g.prog.Stmts, &GStmt{Kind: StSend, Sent: sent, Src: &GSource{Kind: SrcInorder, Subs: subs}, Dst: dstAcct("shop")})
 	return g.prog
 }
